@@ -168,13 +168,19 @@ class Node:
         n.db, n.db_since_mp, n.tok = self.db, set(self.db_since_mp), self.tok
         return n
 
-    def ops(self, lag):
-        '''Operations the surrounding system permits in this state.'''
+    def ops(self, lag, empties=False):
+        '''Operations the surrounding system permits in this state.  Lower-case letters are the same hand-overs with an
+        empty touched set (a refresh that found nothing new; a block whose outputs are all unspendable).'''
         out = [('F', x) for x in WINDOW if x != self.db]
         out += [('B', x) for x in WINDOW]
         out.append(('M', self.db))
         if lag:
             out += [('L', x) for x in sorted(self.db_since_mp) if x != self.db]
+        if empties:
+            out += [('b', x) for x in WINDOW]
+            out.append(('m', self.db))
+            if lag:
+                out += [('l', x) for x in sorted(self.db_since_mp) if x != self.db]
         return out
 
     def apply(self, op):
@@ -184,30 +190,32 @@ class Node:
             self.db_since_mp.add(x)
             self.mon.on_db_height(x)
             return
-        self.tok += 1
-        t = self.tok
-        if kind == 'B':
+        toks = []
+        if kind.isupper():
+            self.tok += 1
+            toks = [self.tok]
+        if kind in 'Bb':
             self.db = x
             self.db_since_mp.add(x)
             self.mon.on_db_height(x)
-            self.mon.before_handover('bp', x, [t])
-            drive(self.obj.on_block({t}, x))
+            self.mon.before_handover('bp', x, toks)
+            drive(self.obj.on_block(set(toks), x))
         else:
-            self.mon.before_handover('mp', x, [t])
-            drive(self.obj.on_mempool({t}, x))
+            self.mon.before_handover('mp', x, toks)
+            drive(self.obj.on_mempool(set(toks), x))
             self.db_since_mp = {self.db}
         self.mon.after_handover()
 
 
 def child_dfs(case):
     from electrumx.server.controller import Notifications as cls
-    depth, lag = case['depth'], case['lag']
+    depth, lag, emp = case['depth'], case['lag'], case.get('empties', False)
     out = {'evaluations': 0, 'counters': {'words': 0, 'joins': 0, 'notifications': 0, 'handovers': 0}, 'sigs': [], 'violations': []}
     c = out['counters']
     seen_keys = {}
     root = Node(cls, case.get('pre', True))
     for op in case['prefix']:
-        if tuple(op) not in [tuple(o) for o in root.ops(lag)]:
+        if tuple(op) not in [tuple(o) for o in root.ops(lag, emp)]:
             return out
         root.apply(tuple(op))
     if root.mon.violations:
@@ -230,12 +238,14 @@ def child_dfs(case):
             c['notifications'] += node.mon.notifs
             c['handovers'] += node.mon.step
             return
-        for op in node.ops(lag):
+        for op in node.ops(lag, emp):
             child = node.clone(cls)
             child.apply(op)
             rec(child, word + [op])
     rec(root, [tuple(o) for o in case['prefix']])
-    out['sigs'] = [digest(('prefix', case['prefix'], case['depth'], lag, case.get('pre', True)))]
+    if emp:
+        c['words_with_empty_handovers'] = c['words']
+    out['sigs'] = [digest(('prefix', case['prefix'], case['depth'], lag, case.get('pre', True), emp))]
     out['sample'] = None
     return out
 
@@ -250,7 +260,7 @@ def child_random(case):
         node = Node(cls)
         word = []
         for _ in range(rng.randrange(6, case['maxlen'])):
-            ops = node.ops(True)
+            ops = node.ops(True, case.get('empties', False))
             # bias towards realistic flow
             op = rng.choice(ops)
             node.apply(op)
@@ -295,18 +305,18 @@ def run(tier, seed, replay=None):
     from electrumx.server.controller import Notifications as cls
     root = Node(cls)
     cases = []
-    for lag, pre in ((False, True), (True, True), (False, False)):
-        d = depth if not lag else depth - 1
-        for op1 in root.ops(lag):
+    for lag, pre, emp in ((False, True, False), (True, True, False), (False, False, False), (False, True, True), (True, True, True)):
+        d = depth - (1 if lag else 0) - (1 if emp else 0)
+        for op1 in root.ops(lag, emp):
             n1 = root.clone(cls)
             n1.apply(op1)
-            for op2 in n1.ops(lag):
-                cases.append({'prefix': [op1, op2], 'depth': d, 'lag': lag, 'pre': pre})
-        cases.append({'prefix': [], 'depth': 0, 'lag': lag, 'pre': pre})   # the empty word
-        for op1 in root.ops(lag):
-            cases.append({'prefix': [op1], 'depth': 1, 'lag': lag, 'pre': pre})
+            for op2 in n1.ops(lag, emp):
+                cases.append({'prefix': [op1, op2], 'depth': d, 'lag': lag, 'pre': pre, 'empties': emp})
+        cases.append({'prefix': [], 'depth': 0, 'lag': lag, 'pre': pre, 'empties': emp})   # the empty word
+        for op1 in root.ops(lag, emp):
+            cases.append({'prefix': [op1], 'depth': 1, 'lag': lag, 'pre': pre, 'empties': emp})
     rep.absorb(run_cases(child_dfs, cases, watchdog=1800), 'dfs')
-    rcases = [{'seed': seed * 65537 + i, 'n': 4000 if thorough else 600, 'maxlen': 40 if thorough else 26} for i in range(32)]
+    rcases = [{'seed': seed * 65537 + i, 'n': 4000 if thorough else 600, 'maxlen': 40 if thorough else 26, 'empties': i % 2 == 1} for i in range(32)]
     rep.absorb(run_cases(child_random, rcases, watchdog=1800), 'random')
     # (2) the same monitor on real hand-over traces of the full server, and membership of those traces in the environment model
     from exv.props.c07 import gen_cases
@@ -333,14 +343,17 @@ def run(tier, seed, replay=None):
     rep.exhaustive = True
     rep.sample({'word': [('F', 7), ('M', 7), ('B', 8), ('M', 8)],
                 'meaning': 'F=flush only to x, B=flush+on_block({token},x), M=on_mempool({token}) at the DB height, '
-                           'L=on_mempool at a height the DB passed since the last refresh (lagging refresh)'})
+                           'L=on_mempool at a height the DB passed since the last refresh (lagging refresh); lower case = the same with an empty set'})
     rep.floor('words', rep.counters['words'], 100000)
+    rep.floor('words_with_empty_handovers', rep.counters['words_with_empty_handovers'], 50000)
     rep.floor('joins', rep.counters['joins'], 10000)
     rep.floor('notifications', rep.counters['notifications'], 10000)
     return rep.finish(
         rule=f'all words of length <= {depth} (<= {depth - 1} with lagging refreshes) over flush-only / flush+on_block / '
              'on_mempool at the DB height / lagging on_mempool, heights in a 4-value window (rising, repeating, falling), '
-             'executed on the real Notifications object by DFS with state copies; unique token per hand-over; online monitor: '
+             'executed on the real Notifications object by DFS with state copies; unique token per hand-over; the same again one level '
+             'shallower with every hand-over also possible with an EMPTY touched set (a refresh that found nothing, a block with no '
+             'spendable output); online monitor: '
              '(a) notify(h) only after on_mempool(h) and on_block(h)/start(h); (b) at every join step (latest block report, '
              'latest refresh and DB height all equal) every token handed over at or before the earlier of the two latest '
              'reports is in some notification. Plus random words up to length 40, and the same monitor attached to the real hand-over traces '
